@@ -155,6 +155,40 @@ def grid_class(ctx, dil):
             ctx.fail(cid, 'Quaternion.norm', 'mismatch', dict(P0, law='norm'), 'norm %r' % (r['n'],))
 
 
+def class_multi(ctx):
+    """the binary identities on operands holding several quaternions (1xN, Nx1, NxN, N = 1..5): element i of the result is the
+    Hamilton-table value for the i-th elements - in particular N = 4, where a stack of 4 quaternions is a 4x4 array"""
+    import spatialmath as sm
+    Q = sm.Quaternion
+    vals = [A(1, 2, -1, 3), A(0, 1, 0, -2), A(2, 0, 3, 1), A(-1, 1, 1, 0), A(3, -2, 0, 1), A(0, 0, 2, 2)]
+    ops = [('mul', lambda x, y: x * y, ref.qmul, 'Quaternion.mul'), ('add', lambda x, y: x + y, lambda a, b_: a + b_, 'Quaternion.add'),
+           ('sub', lambda x, y: x - y, lambda a, b_: a - b_, 'Quaternion.sub'), ('inner', lambda x, y: x.inner(y), lambda a, b_: float(a @ b_), 'Quaternion.inner')]
+    for (on, f, rf, site), m, n in itertools.product(ops, range(1, 6), range(1, 6)):
+        if m != n and m != 1 and n != 1:
+            continue
+        cid = 'C12/multi/%s/m=%d/n=%d' % (on, m, n)
+        if not ctx.want(cid):
+            continue
+        ctx.case(cid, key=cid, trivial=(m == 1 and n == 1))
+        la, rb = [vals[j % 6] for j in range(m)], [vals[(j + 2) % 6] for j in range(n)]
+        P = dict(grid='multi', law=on, m=m, n=n)
+        ok, r = call(lambda: f(Q([x.copy() for x in la]), Q([x.copy() for x in rb])))
+        if not ok:
+            ctx.fail(cid, site, 'raises:' + type(r).__name__, P, '%r' % (r,))
+            continue
+        N = max(m, n)
+        want = [rf(la[i if m > 1 else 0], rb[i if n > 1 else 0]) for i in range(N)]
+        if on == 'inner':
+            got = [float(r)] if np.ndim(r) == 0 else [float(x) for x in np.ravel(np.asarray(r, dtype=float))] if np.asarray(r).size == N else None
+        else:
+            got = [np.asarray(x, dtype=float) for x in r.data] if hasattr(r, 'data') and len(r.data) == N else None
+        if got is None:
+            ctx.fail(cid, site, 'mismatch', dict(P, what='count'), 'result cannot be read as %d values: %r' % (N, np.shape(np.asarray(r.data if hasattr(r, "data") else r))))
+            continue
+        for i in range(N):
+            exact(ctx, cid, site, dict(P, i=i), got[i], want[i], '%s, element %d' % (on, i))
+
+
 def numeric(ctx):
     """rounding behaviour: the same identities to 1e-9 relative on the magnitude ladder x generic pool"""
     import spatialmath.base as b
@@ -361,6 +395,7 @@ def shards(tier, seed):
         out += [('grid', w, d) for w in ('assoc', 'distrib', 'pairs', 'pow', 'rates')]
         out.append(('class', d))
     out.append(('numeric',))
+    out.append(('multi',))
     for mode in (0, 1, 2):
         K = 8
         out += [('dual', k, K, mode) for k in range(K)]
@@ -376,6 +411,8 @@ def run_shard(ctx, shard):
         grid_class(ctx, shard[1])
     elif k == 'numeric':
         numeric(ctx)
+    elif k == 'multi':
+        class_multi(ctx)
     elif k == 'dual':
         dual_grid(ctx, shard[1], shard[2], shard[3])
     elif k == 'dualbasis':
